@@ -1586,6 +1586,95 @@ def broadcast_matrix():
     return n_cases, fails
 
 
+def api_parameter_histories(rng=None, n_random=0):
+    """Model-free: every parameter of the public receive API in the vocabulary. The parameters of `recv`, `recv_silent`
+    and `recv_structured` are enumerated from their signatures (new ones are picked up) and given the values None, 1, a
+    small number and one larger than any message; the sender has queued a few strings before. Oracle: the
+    concatenation of what the receive calls return, in order, is the concatenation of the sent messages in order (nothing
+    lost, duplicated or reordered — true on the code as it is whatever `maxsize` / `timeout` are), and, when no size limit
+    is given, the returned list IS the sent list. Returns (number of histories, failures)."""
+    import inspect
+    import itertools
+    fails, n_hist = [], 0
+    SH._SocketHub._CONNECT_SLEEP_TIME = 0
+    SH._SocketHub._RECV_SLEEP_TIME = 0
+    msg_sets = [["hello world", "second"], ["a", "bc", "def"], ["m1", "", "m2"], ["x" * 40, "y"]]
+    for _ in range(n_random):
+        msg_sets.append(["".join(rng.choice("abcdefgh ") for _ in range(rng.randrange(0, 12)))
+                         for _ in range(rng.randrange(1, 5))])
+    for method in ("recv", "recv_silent", "recv_structured"):
+        sig = inspect.signature(getattr(ThreadSocket, method))
+        names = [n for n in sig.parameters if n not in ("self", "block", "args", "kwargs")]
+        if not names:       # (*args, **kwargs) wrapper: look through it
+            inner = getattr(getattr(ThreadSocket, method), "__wrapped__", None)
+            names = ["timeout", "maxsize"]
+        values = {n: ([None, 5] if n == "timeout" else [None, 1, 3, 1000]) for n in names}
+        combos = [dict(zip(names, v)) for v in itertools.product(*[values[n] for n in names])]
+        for kw in combos:
+            for msgs in (msg_sets if method != "recv_structured" else [["p1", "p2"], ["q"]]):
+                n_hist += 1
+                reset_and_check("before an API-parameter history")
+                out = {"got": [], "errors": []}
+                a_done, b_done = threading.Event(), threading.Event()
+                keep = []
+
+                def alice(msgs=msgs, method=method):
+                    try:
+                        sock = ThreadSocket("n0", "n1", timeout=10)
+                        keep.append(sock)
+                        for m in msgs:
+                            if method == "recv_structured":
+                                sock.send_structured(StructuredMessage(header="h", payload=m))
+                            else:
+                                sock.send(m)
+                    except Exception as e:  # noqa
+                        out["errors"].append("sender: %r" % (e,))
+                    finally:
+                        a_done.set()
+                        b_done.wait(10)
+
+                def bob(kw=kw, method=method):
+                    try:
+                        sock = ThreadSocket("n1", "n0", timeout=10)
+                        keep.append(sock)
+                        if not a_done.wait(10):
+                            raise RuntimeError("sender never finished")
+                        for _i in range(200):
+                            try:
+                                r = getattr(sock, method)(block=False, **kw)
+                            except RuntimeError as e:
+                                if "No message to receive" in str(e):
+                                    break
+                                raise
+                            out["got"].append(r.payload if method == "recv_structured" else r)
+                    except Exception as e:  # noqa
+                        out["errors"].append("receiver: %r" % (e,))
+                    finally:
+                        b_done.set()
+
+                ts = [threading.Thread(target=alice, daemon=True), threading.Thread(target=bob, daemon=True)]
+                for t in ts:
+                    t.start()
+                for t in ts:
+                    t.join(20)
+                desc = {"call": "%s(block=False, %s)" % (method, ", ".join("%s=%r" % kv for kv in kw.items())),
+                        "sent": msgs, "received": out["got"], "errors": out["errors"]}
+                unlimited = all(v is None or k == "timeout" for k, v in kw.items())
+                if out["errors"] or any(t.is_alive() for t in ts):
+                    fails.append({"what": "%s could not complete: %s" % (desc["call"], out["errors"]), "input": desc})
+                elif "".join(str(x) for x in out["got"]) != "".join(msgs):
+                    fails.append({"what": "%s: the concatenation of what was received %r is not the concatenation of what "
+                                          "was sent %r (something lost, duplicated or reordered)"
+                                          % (desc["call"], out["got"], msgs), "input": desc})
+                elif unlimited and out["got"] != msgs:
+                    fails.append({"what": "%s returned %r for the sent messages %r (exactly once, in order)"
+                                          % (desc["call"], out["got"], msgs), "input": desc})
+                del keep[:]
+                hub_in_use().__init__()
+    reset_and_check("after the API-parameter histories")
+    return n_hist, fails
+
+
 def two_run_histories():
     """lifecycle across runs in ONE process: run 1 leaves an unreceived message and dangling connect markers (no
     disconnect); `reset_socket_hub()`; run 2 uses the same names. Returns the run-2 cases (judged by the oracle on
